@@ -865,7 +865,9 @@ func (c *evalCtx) callExpr(n *ECall) EV {
 			return EV{V: e.unbox(c.st, a.V, t)}
 		case "written":
 			a := c.eval(n.Args[0])
-			return EV{V: Val{Typ: types.Typ[types.Int], Terms: []*smt.Term{e.ghostGet(c.st, gCount, streamKey(a.V))}}}
+			// stream invariant: 0 <= count <= size bound (the models assume it at every write; contracts used in place
+			// of models must not lose it)
+			return EV{V: Val{Typ: types.Typ[types.Int], Terms: []*smt.Term{e.writerCount(c.st, streamKey(a.V))}}}
 		case "chanlen", "chancap", "chanclosed", "chanhas", "chancount": // sequential channel model (chan.go)
 			a := c.eval(n.Args[0])
 			ci, ok := e.chanInfoOf(a.V.Typ)
